@@ -58,6 +58,13 @@ class Gen:
             self.arrays[h] = length
             return {"s": "array", "h": h, "len": length, "init": vals}
         self.partial[h] = length
+        if length >= 2 and r.random() < 0.5:
+            # some entries defined (mostly one value), the others left undefined
+            vals = [r.choice(self.consts)] * length
+            vals[r.randrange(length)] = None
+            if length >= 3 and r.random() < 0.5:
+                vals[r.randrange(length)] = r.choice(self.consts)
+            return {"s": "array", "h": h, "len": length, "init": vals}
         return {"s": "array", "h": h, "len": length, "init": None}
 
     def idx(self, length, loops):
@@ -277,6 +284,8 @@ def directed() -> List[Dict[str, Any]]:
                                               G1("t", "P2"), G1("x", "P1"), F], "meas": [0]})
     # arrays with undefined initial entries and all-equal values
     D.append({"history": [A("A1", [None, 4, None]), A("A2", [7, 7, 7, 7]), F, RA("A1"), RA("A2")], "meas": [0]})
+    # ... with one value in most places, an undefined entry among them, a different value somewhere
+    D.append({"history": [A("A1", [1, 1, None, 1, 0]), A("A2", [None, 5, 5]), A("A3", [2, None, 2, 2]), F, RA("A1"), RA("A2"), RA("A3")], "meas": [0]})
     # in-place measurement keeps the qubit
     D.append({"history": [A("A1", [0, 0]), {"s": "qubit", "h": "Q1"}, {"s": "gate", "g": "x", "qs": ["Q1"]},
                           {"s": "meas", "q": "Q1", "inplace": True, "into": fut("A1", c(0))}, {"s": "gate", "g": "h", "qs": ["Q1"]},
